@@ -531,6 +531,12 @@ def _clean_up_state(state: State) -> None:
                     for uid in flow_state.child_flow_uids
                     if uid not in removed_uids
                 ]
+            # The open scopes of the remaining flows must not refer to removed flows either
+            for scope_flow_uids, _ in flow_state.scopes.values():
+                if any(uid in removed_uids for uid in scope_flow_uids):
+                    scope_flow_uids[:] = [
+                        uid for uid in scope_flow_uids if uid not in removed_uids
+                    ]
 
     # Remove all actions that are no longer referenced
     # TODO: Refactor to use no more ids to simplify memory management
